@@ -408,7 +408,7 @@ pub(crate) fn l1_node_cooldown() {
 // LocalNode::drop: a thread that exits puts its node into COOLDOWN (never UNUSED directly, never
 // frees it); a LocalNode without a node does nothing. A later Node::get re-claims exactly that node
 // (bookkeeping is bounded by the peak number of live threads, not by threads ever created).
-// @harness name=l1_local_node_drop_reuse props=C11,C10 tier=quick flavour=nostd fn=LocalNode::drop+Node::get
+// @harness name=l1_local_node_drop_reuse props=C11,C10,C03,C12 tier=quick flavour=nostd fn=LocalNode::drop+Node::get
 #[cfg_attr(kani, kani::proof)]
 #[cfg_attr(kani, kani::unwind(4))]
 pub(crate) fn l1_local_node_drop_reuse() {
